@@ -62,6 +62,7 @@ static void check_case(vg::Src& s, vh::Ctx& c)
         Built prefix;
         bool single;
         bool later_changes;
+        va::UpdateResult last;  // the prefix graph's result for the latest input
     };
     std::vector<Snap> snaps;
     for (size_t p = 0; p < ops.size(); ++p)
@@ -99,13 +100,16 @@ static void check_case(vg::Src& s, vh::Ctx& c)
         snaps.push_back(std::move(sn));
     }
     bool nt = false;
-    for (size_t u = 0; u < updates; ++u)
+    // compares every snapshot with its prefix graph; `fresh` = right after an update (the prefix
+    // graphs are updated with the same input first), otherwise a re-read of the snapshots while
+    // the main graph was given new settings for the NEXT update (nothing may have changed)
+    auto compare_all = [&](size_t u, const std::string& ut, bool fresh)
     {
-        std::string ut = "update#" + std::to_string(u + 1) + " ";
-        main.graph->update_routes(fields[u]);
         for (auto& sn : snaps)
         {
-            auto pres = sn.prefix.graph->update_routes(fields[u]);
+            if (fresh)
+                sn.last = sn.prefix.graph->update_routes(fields[u]);
+            const auto& pres = sn.last;
             std::string st = ut + "snapshot '" + sn.spec.name + "' at position " + std::to_string(sn.pos) + ": ";
             if (sn.spec.save_elev)
             {
@@ -122,7 +126,6 @@ static void check_case(vg::Src& s, vh::Ctx& c)
             va::IGraph& sg = main.graph->graph_snapshot(sn.spec.name);
             GraphState ss = sg.state();
             GraphState ps = sn.prefix.graph->state();
-            c.expect(sg.impl_single_flow() == sn.single, "snapshot-direction", st + "direction flag");
             std::string d = cmp_upto_counts(ss, ps, true);
             if (!d.empty())
                 c.fail("snapshot-state", st + d);
@@ -153,6 +156,8 @@ static void check_case(vg::Src& s, vh::Ctx& c)
                     if (!vg::biteq(k1[i], k2[i]))
                         c.fail("snapshot-kernel", st + "kernel " + std::to_string(kind) + " node " + std::to_string(i));
             }
+            if (!fresh)
+                continue;
             // read-only
             auto refuses = [&](const char* what, auto&& fn)
             {
@@ -176,6 +181,29 @@ static void check_case(vg::Src& s, vh::Ctx& c)
             if (!d2.empty())
                 c.fail("snapshot-state-after-refused-calls", st + d2);
         }
+    };
+    for (size_t u = 0; u < updates; ++u)
+    {
+        std::string ut = "update#" + std::to_string(u + 1) + " ";
+        if (u > 0 && s.chance(140))
+        {
+            // new mask / base levels on the MAIN graph, in preparation of the next update: the
+            // snapshots of the previous update must not move (seeded change C16-F) ...
+            std::string what = mutate_settings(s, fc, *main.graph, false);
+            if (!what.empty())
+            {
+                c.desc += " |" + what;
+                if (c.verbose)
+                    std::cout << "STEP" << what << std::endl;
+                c.label("settings-changed-between-updates");
+                compare_all(u - 1, "after" + what + " (before update#" + std::to_string(u + 1) + ") ", false);
+                // ... and the prefix graphs get the same settings for the next update
+                for (auto& sn : snaps)
+                    apply_settings(*sn.prefix.graph, fc);
+            }
+        }
+        main.graph->update_routes(fields[u]);
+        compare_all(u, ut, true);
     }
     c.nontrivial = nt;
     c.label("snapshots=" + std::to_string(snaps.size()));
